@@ -286,13 +286,30 @@ def pfCheck (fx : Fixes) (j : Json) : Except String Json := do
     | _ => pure Option.none)
   pure (obj [("model", pfmtToJson (predFormat fx sp acts)), ("table", pfmtToJson (pfRun Coba.Generated.C15.predFormatTree sp acts))])
 
+/-- phase 6: the action cache with the caller's list OBJECTS (`oids`): what the learner is offered call after call by the pinned
+lines (reference kept, `runPrepRef`) and by the value-based `prepare` (`runPrep`), and the hypotheses of `inplace_*_partial` -/
+def aliasCheck (fx : Fixes) (st : State) (calls : List Arg) (oids : List Nat) : Json :=
+  let cs := (oids.zip calls).map (fun p => (⟨p.1, p.2⟩ : OCall))
+  obj [("ref", ofList argToJson (runPrepRef fx { st := st } cs)), ("val", ofList argToJson (runPrep fx st cs)),
+       ("never_kept", Json.bool (neverKept fx { st := st } cs)), ("fresh", Json.bool (freshObjects [] cs))]
+
+/-- (C) guard of `inplace_fresh_objects_partial`: a fresh list object per call - both caches offer the same -/
+def aliasFreshOk (fx : Fixes) (st : State) (calls : List Arg) : Bool :=
+  let cs := ((List.range calls.length).zip calls).map (fun p => (⟨p.1, p.2⟩ : OCall))
+  let a := runPrepRef fx { st := st } cs
+  let b := runPrep fx st cs
+  freshObjects [] cs && a.length == b.length && (a.zip b).all (fun p => sameArg p.1 p.2)
+
 def handle (req : Json) : Except String Json := do
   let fxj ← field req "fx"
   let fx : Fixes := ⟨← bool (← field fxj "short"), ← bool (← field fxj "batch"), ← bool (← field fxj "col"), ← bool (← field fxj "rowdict")⟩
   let seed ← int (← field req "seed")
   let calls ← (← arr (← field req "calls")).mapM parseArg
   let st := initState seed
-  let mut out : List (String × Json) := [("nan_check", nanCheck calls)]
+  let mut out : List (String × Json) := [("nan_check", nanCheck calls), ("alias_fresh_ok", Json.bool (aliasFreshOk fx st calls))]
+  match req.getObjVal? "alias" with
+  | .ok aj => return obj (out ++ [("alias", aliasCheck fx st calls (← (← arr aj).mapM nat))])
+  | .error _ => pure ()
   match req.getObjVal? "pf" with
   | .ok pj => out := out ++ [("pf", Json.arr (← (← arr pj).mapM (pfCheck fx)).toArray)]
   | .error _ => pure ()
